@@ -111,6 +111,7 @@ def run(ctx: Context, col) -> None:
             f"n_pad + n_states = {show_norm(T_add(npad, A['n_states']))} but slots = {show_norm(slots)}", text="slots = states + padding")
     # prepare_batches
     I2 = Interp(ctx.ct, cls, dict(A), axes={"STATES": ("state", "sdim")})
+    I2.sym_shapes["STATES"] = (A["n_states"], A["state_dim"])
     STATES = S("STATES")
     try:
         pb = I2.call_method("prepare_batches", [STATES])
